@@ -78,10 +78,14 @@ package pool
 //@   ensures [values-kept] forall i int :: {old(r.msg.Options[i].ID)} 0 <= i && i < len(old(r.msg.Options)) ==> bytesEqOld(old(r.msg.Options[i].Value), old(r.msg.Options[i].Value))
 //
 //@ func (*Message) Remove(opt message.OptionID)
-//@   requires r != nil && sortedOpts(r.msg.Options)
+//@   requires r != nil && msgInv(r)
+//@   ghost-arg Remove.gbuf = r.valueBuffer[0 : cap(r.valueBuffer)]
 //@   modifies r.msg.Options, r.msg.Options[0 : len(r.msg.Options)], r.isModified
 //@   ensures [modified] r.isModified
 //@   ensures [gone] forall i int :: {r.msg.Options[i].ID} 0 <= i && i < len(r.msg.Options) ==> r.msg.Options[i].ID != opt
+//@   ensures [sorted] sortedOpts(r.msg.Options)
+//@   ensures [clear] valuesClear(r.msg.Options, r.valueBuffer[0 : cap(r.valueBuffer)])
+//@   ensures [same-array] r.msg.Options[0:0] == old(r.msg.Options)[0:0] && cap(r.msg.Options) == cap(old(r.msg.Options)) && len(r.msg.Options) <= len(old(r.msg.Options))
 //
 //@ func (*Message) SetBody(s io.ReadSeeker)
 //@   requires r != nil
@@ -260,3 +264,23 @@ package pool
 //
 //@ func (*Pool) ReleaseMessage(req *Message)
 //@   trusted
+//
+//@ func (*Message) IsHijacked() (b bool)
+//@   trusted
+//@   requires r != nil
+//
+//@ func (*Message) ControlMessage() (cm *net.ControlMessage)
+//@   trusted
+//@   requires r != nil
+//
+//@ func (*Message) BodySize() (n int64, err error)
+//@   trusted
+//@   requires r != nil
+//
+//@ func (*Message) Body() (b io.ReadSeeker)
+//@   trusted
+//@   requires r != nil
+//
+//@ func (*Message) GetOptionUint32(id message.OptionID) (v uint32, err error)
+//@   trusted
+//@   requires r != nil
